@@ -185,7 +185,154 @@ theorem text_shape (w v : Nat) (vs : List Nat) :
     | cons a l ih => simp [tailForm, ih, List.append_assoc]
   rw [this]; simp [List.append_assoc]
 
+/-! ### histories over several objects: the receiving object has a past -/
+
+/-- a polynomial of the type at hand: `len` words, each a limb value -/
+def PolyOk (w len : Nat) (p : List Nat) : Prop := p.length = len ∧ ∀ x ∈ p, x < 2 ^ w
+
+/-- the statement refers to existing variables and stores limb values -/
+def StepOk (K w : Nat) : HStep → Prop
+  | .write i => i < K
+  | .read j => j < K
+  | .copy d s => d < K ∧ s < K
+  | .poke d _ x => d < K ∧ x < 2 ^ w
+
+structure HInv (w len K : Nat) (v : VHState) : Prop where
+  hK : v.hs.length = K
+  hh : ∀ p ∈ v.hs, PolyOk w len p
+  hq : ∀ p ∈ v.queue, PolyOk w len p
+
+/-- the stream that carries a FIFO of polynomials: their raw forms back to back -/
+def absH (w : Nat) (v : VHState) : HState := ⟨v.hs, v.queue.flatMap (serialize w), v.failed⟩
+
+theorem getH_eq {hs : List (List Nat)} {i : Nat} (h : i < hs.length) : getH hs i = hs[i] := by
+  simp [getH, h]
+
+theorem getD_ok {w len K : Nat} {v : VHState} (hi : HInv w len K v) {i : Nat} (h : i < K) :
+    PolyOk w len (getH v.hs i) := by
+  have hl : i < v.hs.length := by rw [hi.hK]; exact h
+  rw [getH_eq hl]
+  exact hi.hh _ (List.getElem_mem hl)
+
+theorem set_ok {w len : Nat} {l : List (List Nat)} (hl : ∀ p ∈ l, PolyOk w len p) (j : Nat) {q : List Nat}
+    (hq : PolyOk w len q) : ∀ p ∈ l.set j q, PolyOk w len p := by
+  intro p hp
+  rcases List.mem_or_eq_of_mem_set hp with h | h
+  · exact hl p h
+  · exact h ▸ hq
+
+theorem limb_bytes_pos {w : Nat} (hw : 8 ∣ w) (hw0 : 0 < w) : 0 < w / 8 := by
+  obtain ⟨k, rfl⟩ := hw
+  omega
+
+/-- one statement: the byte-level execution is the value-level one, observation included -/
+theorem step_sim (w len K : Nat) (hw : 8 ∣ w) (hw0 : 0 < w) (hlen : 0 < len) (v : VHState) (st : HStep)
+    (hi : HInv w len K v) (hok : StepOk K w st) :
+    stepH w len (absH w v) st = absH w (stepHV v st) ∧
+    obsH w len (absH w v) st = obsHV (len * (w / 8)) v st ∧
+    HInv w len K (stepHV v st) := by
+  have hB := limb_bytes_pos hw hw0
+  cases st with
+  | write i =>
+    have hp := getD_ok hi (show i < K from hok)
+    cases hf : v.failed with
+    | true => simp [stepH, stepHV, obsH, obsHV, absH, hf]; exact hi
+    | false =>
+      refine ⟨by simp [stepH, stepHV, absH, hf], ?_, ?_⟩
+      · simp [obsH, obsHV, absH, hf, raw_length, hp.1]
+      · simp only [stepHV, hf]
+        exact ⟨hi.hK, hi.hh, fun p hp' => by
+          rcases List.mem_append.1 hp' with h | h
+          · exact hi.hq p h
+          · rw [List.mem_singleton.1 h]; exact hp⟩
+  | read j =>
+    have hj : j < K := hok
+    have hp := getD_ok hi hj
+    cases hf : v.failed with
+    | true => simp [stepH, stepHV, obsH, obsHV, absH, hf]; exact hi
+    | false =>
+      cases hq : v.queue with
+      | nil =>
+        -- nothing left in the stream: the object keeps its contents, `failbit` is set
+        have hl : j < v.hs.length := by rw [hi.hK]; exact hj
+        have hd : deserialize w len (getH v.hs j) [] = (getH v.hs j, [], true) := by
+          have h1 := fromBytes_toBytes (w / 8) (getH v.hs j) []
+            (fun x hx => by rw [← pow_limb hw]; exact hp.2 x hx)
+          rw [hp.1, List.append_nil] at h1
+          have hpos : 0 < len * (w / 8) := Nat.mul_pos hlen hB
+          simp only [deserialize, List.length_nil, Nat.min_zero, List.take_zero, List.drop_zero,
+            List.nil_append, h1, List.drop_nil]
+          simp [hpos]
+        have hset : v.hs.set j (getH v.hs j) = v.hs := by
+          rw [getH_eq hl]; exact List.set_getElem_self hl
+        refine ⟨?_, ?_, ?_⟩
+        · simp [stepH, stepHV, absH, hf, hq, hd, hset]
+        · simp [obsH, obsHV, stepH, absH, hf, hq, hd, gcount]
+        · simp only [stepHV, hf, hq, Bool.false_eq_true, if_false]
+          exact ⟨hi.hK, hi.hh, by simp⟩
+      | cons p q =>
+        have hpq : PolyOk w len p := hi.hq p (by simp [hq])
+        have hd : deserialize w len (getH v.hs j) (serialize w p ++ q.flatMap (serialize w))
+            = (p, q.flatMap (serialize w), false) := by
+          have := raw_roundtrip w hw p (getH v.hs j) (q.flatMap (serialize w)) hpq.2
+          rw [hpq.1] at this; exact this
+        have hg : gcount w len (serialize w p ++ q.flatMap (serialize w)) = len * (w / 8) := by
+          simp only [gcount, List.length_append, raw_length, hpq.1]; omega
+        refine ⟨?_, ?_, ?_⟩
+        · simp [stepH, stepHV, absH, hf, hq, hd]
+        · simp [obsH, obsHV, stepH, absH, hf, hq, hd, hg]
+        · simp only [stepHV, hf, hq, Bool.false_eq_true, if_false]
+          exact ⟨by simp [hi.hK], set_ok hi.hh j hpq, fun r hr => hi.hq r (by simp [hq, hr])⟩
+  | copy d s =>
+    refine ⟨by simp [stepH, stepHV, absH], by simp [obsH, obsHV], ?_⟩
+    simp only [stepHV]
+    exact ⟨by simp [hi.hK], set_ok hi.hh d (getD_ok hi hok.2), hi.hq⟩
+  | poke d i x =>
+    refine ⟨by simp [stepH, stepHV, absH], by simp [obsH, obsHV], ?_⟩
+    have hp := getD_ok hi hok.1
+    simp only [stepHV]
+    refine ⟨by simp [hi.hK], set_ok hi.hh d ⟨by simp [hp.1], fun y hy => ?_⟩, hi.hq⟩
+    rcases List.mem_or_eq_of_mem_set hy with h | h
+    · exact hp.2 y h
+    · exact h ▸ hok.2
+
+/-- **handles_value_semantics** — any history of writes, reads, copies and element stores over `K` variables and
+one stream, started from any contents of the variables and any polynomials already in the stream: after **every**
+statement the contents of **all** variables, the bytes appended, `fail()` and `gcount()` are those of the value-level
+reading of the history (variables are independent values, the stream is a FIFO of polynomials).  In particular a
+read changes the receiving variable only, and makes it equal to the polynomial written first among those not yet
+read, whatever the variable held or was used for before. -/
+theorem handles_value_semantics (w len K : Nat) (hw : 8 ∣ w) (hw0 : 0 < w) (hlen : 0 < len) :
+    ∀ (prog : List HStep) (v : VHState), HInv w len K v → (∀ st ∈ prog, StepOk K w st) →
+      traceH w len prog (absH w v) = traceHV (len * (w / 8)) prog v
+  | [], _, _, _ => rfl
+  | st :: r, v, hi, hok => by
+    obtain ⟨h1, h2, h3⟩ := step_sim w len K hw hw0 hlen v st hi (hok st (by simp))
+    simp only [traceH, traceHV, h1, h2]
+    rw [handles_value_semantics w len K hw hw0 hlen r _ h3 (fun s hs => hok s (by simp [hs]))]
+    simp [absH]
+
+/-- what one read does at the value level (the statement of the property for a receiving variable with a past):
+the receiving variable holds the oldest unread polynomial, every other variable is unchanged -/
+theorem read_value (v : VHState) (j : Nat) (p : List Nat) (q : List (List Nat)) (hf : v.failed = false)
+    (hq : v.queue = p :: q) (hj : j < v.hs.length) :
+    (stepHV v (.read j)).hs[j]? = some p ∧ (∀ k, k ≠ j → (stepHV v (.read j)).hs[k]? = v.hs[k]?) ∧
+      (stepHV v (.read j)).queue = q := by
+  simp only [stepHV, hf, hq]
+  refine ⟨by simp [hj], fun k hk => ?_, by simp⟩
+  simp [Ne.symm hk]
+
+/-- a write changes no variable -/
+theorem write_value (v : VHState) (i : Nat) : (stepHV v (.write i)).hs = v.hs := by
+  simp only [stepHV]; split <;> rfl
+
 /-! ### non-vacuity -/
+
+-- three handles, two polynomials written and read back into two of them (16-bit limbs, 2 words)
+example : traceH 16 2 [.write 0, .write 1, .read 2, .read 1]
+      ⟨[[258, 1], [7, 65535], [9, 9]], [], false⟩ =
+    [((4, 0), [[258, 1], [7, 65535], [9, 9]]), ((4, 0), [[258, 1], [7, 65535], [9, 9]]),
+     ((0, 4), [[258, 1], [7, 65535], [258, 1]]), ((0, 4), [[258, 1], [7, 65535], [258, 1]])] := by decide
 
 example : serialize 16 [258, 65535, 15361] = [2, 1, 255, 255, 1, 60] := by decide
 example : deserialize 16 3 [7, 7, 7] ([2, 1, 255, 255, 1, 60] ++ [9, 9]) = ([258, 65535, 15361], [9, 9], false) := by decide
